@@ -2,9 +2,9 @@ package main
 
 import (
 	"bytes"
-	"math/big"
 	"context"
 	"fmt"
+	"math/big"
 	"os"
 	"os/exec"
 	"path/filepath"
@@ -80,7 +80,9 @@ func (vc *VC) incrementalScriptG(obls []*Obl, ground bool) string {
 }
 
 // singleScript renders one obligation as a stand-alone query (with model request).
-func (vc *VC) singleScript(o *Obl, getValues []string) string { return vc.singleScriptG(o, getValues, false) }
+func (vc *VC) singleScript(o *Obl, getValues []string) string {
+	return vc.singleScriptG(o, getValues, false)
+}
 
 func (vc *VC) singleScriptG(o *Obl, getValues []string, ground bool) string {
 	var sb strings.Builder
@@ -157,11 +159,11 @@ func parseIncremental(out string) map[string]string {
 }
 
 type SolveOpts struct {
-	WorkDir   string
-	QuickMs   int // per-query timeout in the incremental pass
-	SingleMs  int // timeout for individually re-checked obligations
+	WorkDir    string
+	QuickMs    int  // per-query timeout in the incremental pass
+	SingleMs   int  // timeout for individually re-checked obligations
 	AllSolvers bool // thorough: every obligation on every solver
-	KeepFiles bool
+	KeepFiles  bool
 }
 
 var solveSem = make(chan struct{}, 16)
@@ -431,11 +433,13 @@ func skolemize(t *Term, positive bool, sks *[]*Term) *Term {
 }
 
 // instantiate returns instances of the positive universal quantifiers of hypothesis h at the given constants.
-func instantiate(h *Term, sks []*Term, limit int) []*Term {
+func instantiate(h *Term, sks []*Term, limit int, withPatterns bool) []*Term {
 	var out []*Term
 	var rec func(t *Term, wrap func(*Term) *Term)
 	rec = func(t *Term, wrap func(*Term) *Term) {
 		switch {
+		case t.Op == "forall" && len(t.Pats) > 0 && !withPatterns:
+			// engine axioms carry triggers and are left to E-matching
 		case t.Op == "forall":
 			// candidates per bound variable
 			combos := []map[string]*Term{{}}
@@ -556,14 +560,41 @@ func (vc *VC) oblQuery(o *Obl) string {
 				collect(a)
 			}
 		}
-		collect(goal)
+		if vc.isBV() {
+			collect(goal)
+		} else {
+			// int mode: only the index terms at which the goal reads arrays (E-matching does the rest)
+			var idx func(t *Term)
+			idx = func(t *Term) {
+				if t.Op == "forall" || t.Op == "exists" {
+					return
+				}
+				if t.Op == "select" && len(t.Args) == 2 && t.Args[1].S.K == KInt && mentions(t.Args[1]) {
+					cands := []*Term{t.Args[1]}
+					for c := t.Args[1]; c.Op == "+" && len(c.Args) == 2; c = c.Args[1] {
+						cands = append(cands, c.Args[1])
+					}
+					for _, c := range cands {
+						k := c.String()
+						if len(c.Args) > 0 && !seen[k] && len(extra) < 8 && len(k) < 300 {
+							seen[k] = true
+							extra = append(extra, c)
+						}
+					}
+				}
+				for _, a := range t.Args {
+					idx(a)
+				}
+			}
+			idx(goal)
+		}
 		sks = append(sks, extra...)
 		n := 0
 		for _, f := range vc.facts[:o.NFacts] {
 			if !hasQuant(f) {
 				continue
 			}
-			for _, inst := range instantiate(f, sks, 24) {
+			for _, inst := range instantiate(f, sks, 24, vc.isBV()) {
 				fmt.Fprintf(&sb, "(assert %s)\n", inst.String())
 				n++
 				if n > 400 {
